@@ -50,14 +50,16 @@ def _blocks(data, shape, axis_to_factor, reducer):
 
 
 def bin_claim(shape, axes, factors, reducer):
+    call_axes = tuple(axes)                              # as the caller spells them (negative = counted from the end)
+    axes = tuple(a % len(shape) for a in axes)
     a2f = dict(zip(axes, factors))
 
     def claim(I):
         with I.patch(dsmod, valmod, overrides=_over()):
             ds, data, origin, sampling = _mk(I, shape)
-            out = ds.bin(tuple(factors), axes=tuple(axes), reducer=reducer)
+            out = ds.bin(tuple(factors), axes=call_axes, reducer=reducer)
             twin = ds.copy()
-            twin.bin(tuple(factors), axes=tuple(axes), reducer=reducer, modify_in_place=True)
+            twin.bin(tuple(factors), axes=call_axes, reducer=reducer, modify_in_place=True)
             want = _blocks(data, shape, a2f, reducer)
             rels = [Rel("block_reduction", out.array, want),
                     Rel("inplace_equals_copy", [twin.array, twin.sampling, twin.origin], [out.array, out.sampling, out.origin]),
@@ -114,6 +116,9 @@ def _nyquist_zero(I, data, axes):
 def resample_claim(shape, axes, out_lens, kind="real", updown=False, use_factors=False, factors=None):
     """factors: explicit resampling factors whose product with the axis length is not an integer (the output length is whatever
     the code rounds to; extent and centre must still be preserved with that length)"""
+    call_axes = tuple(axes)
+    axes = tuple(a % len(shape) for a in axes)
+
     def claim(I):
         nonlocal out_lens
         with I.patch(dsmod, valmod, overrides=_over()):
@@ -128,14 +133,14 @@ def resample_claim(shape, axes, out_lens, kind="real", updown=False, use_factors
                 return [Rel("up_then_down_identity", back.array, data, tol=1e-9),
                         Rel("up_then_down_calibration", [back.sampling, back.origin], [sampling, origin], tol=1e-9)]
             if factors is not None:
-                out = ds.fourier_resample(factors=tuple(factors), axes=tuple(axes))
+                out = ds.fourier_resample(factors=tuple(factors), axes=call_axes)
                 out_lens = tuple(out.array.shape[a] for a in axes)
             elif use_factors:
                 out = ds.fourier_resample(factors=tuple(o / shape[a] for a, o in zip(axes, out_lens)), axes=tuple(axes))
             else:
-                out = ds.fourier_resample(out_shape=tuple(out_lens), axes=tuple(axes))
+                out = ds.fourier_resample(out_shape=tuple(out_lens), axes=call_axes)
             twin = ds.copy()
-            twin.fourier_resample(out_shape=tuple(out_lens), axes=tuple(axes), modify_in_place=True)
+            twin.fourier_resample(out_shape=tuple(out_lens), axes=call_axes, modify_in_place=True)
             n_in = int(np.prod(shape))
             n_out = int(np.prod(out.array.shape))
             rels = [Rel("mean_preserved", out.array.sum() / n_out, data.sum() / n_in, tol=1e-9),
@@ -194,7 +199,10 @@ def cases(tier):
     # --- binning
     bins = [((5,), (0,), (2,), "sum"), ((7,), (0,), (3,), "mean"), ((4,), (0,), (4,), "sum"), ((3,), (0,), (1,), "sum"),
             ((5, 4), (0, 1), (2, 3), "mean"), ((5, 4), (1,), (2,), "sum"), ((3, 4), (0, 1), (2, 2), "sum"),
-            ((2, 3, 4), (0, 2), (2, 3), "sum"), ((2, 3, 4), (1,), (2,), "mean"), ((6,), (0,), (4,), "sum")]
+            ((2, 3, 4), (0, 2), (2, 3), "sum"), ((2, 3, 4), (1,), (2,), "mean"), ((6,), (0,), (4,), "sum"),
+            # axes counted from the end, and axes given in descending order with unequal factors
+            ((4, 6), (-1,), (2,), "sum"), ((2, 3, 4), (-1, 0), (2, 2), "mean"), ((4, 6), (1, 0), (3, 2), "sum"),
+            ((2, 3, 4), (2, 0), (3, 2), "sum")]
     extra = []
     for n in range(1, 8):
         for f in range(1, 5):
@@ -210,7 +218,7 @@ def cases(tier):
     # --- Fourier resampling: exact on lengths 1, 2, 4; tolerance 1e-9 on the others
     rs = [((4,), (0,), (2,)), ((2,), (0,), (4,)), ((4,), (0,), (1,)), ((4,), (0,), (4,)), ((4, 2), (0, 1), (2, 4)),
           ((2, 4), (1,), (2,)), ((3,), (0,), (5,)), ((5,), (0,), (2,)), ((6,), (0,), (3,)), ((3, 4), (0, 1), (4, 3)),
-          ((4,), (0,), (7,)), ((1,), (0,), (3,))]
+          ((4,), (0,), (7,)), ((1,), (0,), (3,)), ((2, 4), (-1,), (2,)), ((4, 2), (-1, -2), (4, 2)), ((4, 2), (1, 0), (4, 2))]
     more = [((n,), (0,), (m,)) for n in range(1, 8) for m in range(1, 9)] + \
            [((3, 4), (0, 1), (2, 2)), ((4, 3), (0,), (2,)), ((2, 2, 4), (0, 2), (4, 2)), ((5, 2), (0, 1), (3, 3))]
     rs += rnd.sample(more, 5) if quick else more
@@ -224,6 +232,7 @@ def cases(tier):
     # factors for which length * factor is not an integer: the output length is rounded, the calibration must follow the length
     out.append(("resample_factors[7 * 0.5]", resample_claim((7,), (0,), None, factors=(0.5,)), dict(logic="QF_LRA")))
     out.append(("resample_factors[3 * 1.5]", resample_claim((3,), (0,), None, factors=(1.5,)), dict(logic="QF_LRA")))
+    out.append(("resample_factors[2x7 * 0.5;axes=(-1,)]", resample_claim((2, 7), (-1,), None, factors=(0.5,)), dict(logic="QF_LRA")))
     out.append(("resample_factors[3x5 * (0.5, 0.7)]", resample_claim((3, 5), (0, 1), None, factors=(0.5, 0.7)), dict(logic="QF_LRA")))
     ud = [((2,), (0,), (4,)), ((4,), (0,), (8,)), ((3,), (0,), (4,)), ((4, 2), (0, 1), (5, 4)), ((3, 4), (0, 1), (4, 6)),
           ((5,), (0,), (6,)), ((6,), (0,), (7,))]
